@@ -381,3 +381,33 @@ def density_rules(facts):
             else:
                 out.append(ob("density.estimate", key, fn["pat"], "violated", "estimate term is `%s`, not (1 << height) * kernel / n_" % (ws[0] if ws else "?"), fn["qname"]))
     return out
+
+
+LEVEL_CONTAINERS = {("datasketches::density_sketch", "levels_"), ("datasketches::quantiles_sketch", "levels_"), ("datasketches::req_sketch", "compactors_")}
+GROW = ("push_back", "emplace_back")
+MAY_SHRINK = ("resize", "pop_back", "erase", "clear", "assign", "shrink_to_fit", "swap")
+
+
+def level_growth(facts):
+    """the vector of levels / compactors (whose elements hold retained items) only ever grows outside constructors, assignment and
+    reset: every size-changing call on it in a mutator is push_back / emplace_back.  A resize / erase / clear there can drop levels
+    together with the items they hold while n and num_retained still count them."""
+    fns = qfns(facts)
+    out = []
+    for pat, fn in sorted(fns.items()):
+        if fn.get("special") or fn["kind"] == "ctor" or fn["name"] in ("reset", "operator=", "deserialize"):
+            continue
+        idx = [0]
+
+        def v(n):
+            if n.get("k") == "Call" and n.get("member") and n.get("obj") is not None and n.get("cname") in GROW + MAY_SHRINK:
+                o = strip(n["obj"])
+                if o.get("k") == "Member" and (o.get("rec"), o.get("f")) in LEVEL_CONTAINERS:
+                    key = "%s:%s.%s#%d" % (short(fn["patq"]), o["f"], "grow" if n["cname"] in GROW else "resize", idx[0])
+                    idx[0] += 1
+                    if n["cname"] in GROW:
+                        out.append(ob("levels.grow-only", key, n["loc"], "discharged", "%s.%s(...) adds a level" % (o["f"], n["cname"]), fn["qname"]))
+                    else:
+                        out.append(ob("levels.grow-only", key, n["loc"], "violated", "%s.%s(...) in a mutator can shrink the vector of levels: levels above the new size are dropped with the items they hold while n_ / num_retained_ still count them (all sibling sites only push_back under a size test)" % (o["f"], n["cname"]), fn["qname"]))
+        walk(fn["body"], v)
+    return out
